@@ -1,5 +1,7 @@
 import ModVerif.AuditCmd
 import ModVerif.Props.C06
 import ModVerif.Tie.Module
+import ModVerif.Tie.FnModule
 #audit_module ModVerif.Props.C06
 #audit_module ModVerif.Tie.Module
+#audit_module ModVerif.Tie.FnModule
